@@ -14,7 +14,7 @@ def run(ctx):
     if ctx.quick:
         small_sizes = [1, 17]
         algos = ["sha256", rng.choice(["sha512", "sha1", "sha384", "xxh3"])]
-        large_sizes = [8193]
+        large_sizes = [8193, 70001]
     else:
         small_sizes = [1, 2, 17, 64]
         algos = list(gen.ALGOS)
@@ -74,7 +74,7 @@ def run(ctx):
                     os.makedirs(ddir, exist_ok=True)
                     for n in names:
                         bufsets = retr.BUFSETS if n in retr.CHECKED_STREAM else [None]
-                        if n in retr.CHECKED_STREAM and (kind == "large" or ctx.quick):
+                        if n in retr.CHECKED_STREAM and (kind == "large" or ctx.quick) and cls != "control-no-damage":
                             bufsets = [rng.choice(retr.BUFSETS[2:]), rng.choice(retr.BUFSETS)] if size < 20000 \
                                 else [rng.choice(retr.BUFSETS[2:5])]
                         for bs in bufsets:
@@ -113,6 +113,12 @@ def run(ctx):
                                 ctx.count(f"control_{'ok' if ok and delivered == data else 'not_ok'}[{n}]")
                                 if emu and not (ok and delivered == data):
                                     ctx.inconc(f"emulated FICLONE did not produce a successful reflink: {ev.brief(r)}")
+                                if ok and delivered != data:
+                                    ctx.violation(f"{n}|{mode}|undamaged|{algo}|{kind}",
+                                                  f"{n} in {mode} (buffers {bs}) returned Ok on an UNDAMAGED {size}-byte entry but "
+                                                  f"delivered {None if delivered is None else len(delivered)} bytes that differ from "
+                                                  f"the stored ones", {"entry_point": n, "mode": mode, "algo": algo, "size": size,
+                                                                       "bufs": bs, "steps": [[mode, reqs[0]]]})
                             continue
                         ctx.count("returned_Err" if not ok else "returned_Ok")
                         ctx.case(distinct_key=(n, mode, cls, pos, algo, size),
